@@ -142,7 +142,24 @@ def run_case(ctx, name, params):
         if r.random() < 0.15:
             bxs[r.randrange(k)] = [2 ** 53 + 1, 2 ** 53 + 3]      # exact integer bounds that a float cannot hold
         g = operators.PlackettBurmanGenerator(P(bxs))
-        wit = lambda: {"k": k, "bounds": bxs[:4]}
+        wit = lambda: {"k": k, "bounds": bxs[:4], "entry": entry}
+        entry = "generator"
+        if r.random() < 0.35:
+            # the builder itself, with level ranges as its documentation allows them: "only min and max values of the range are
+            # required" -- a range given with intermediate values still means its two end points
+            from artap import doe
+            entry = "doe.build_plackett_burman"
+            rng_ = {}
+            for j_, (lb, ub) in enumerate(bxs):
+                mids_ = sorted(lb + r.random() * (ub - lb) for _ in range(r.choice([0, 0, 1, 2, 4]))) if isinstance(lb, float) else []
+                rng_["f%02d" % j_] = [lb] + mids_ + [ub]
+            ctx.count("pb_designs_from_the_builder_with_level_ranges")
+
+            class _G:
+                @staticmethod
+                def generate():
+                    return [list(row) for row in doe.build_plackett_burman(rng_)]
+            g = _G()
         try:
             vecs = g.generate()
         except Exception as e:
